@@ -149,7 +149,17 @@ void Runner<A>::doReject(const sim::Op &op) {
 #endif
         unsigned bad = badKind == 0 ? n : badKind == 1 ? n + 1 : UINT_MAX;
         int pos = (int)modn(op.a, (unsigned)en.arity);
-        if (en.arity == 2 && (op.y & 2)) { a = bad; b = bad; cell += "|both"; }
+        if (en.arity == 2 && (op.y & 2)) {
+            a = bad; b = bad; cell += "|both";
+            if (op.y & 8) { // two different out-of-range values
+                int k2 = (badKind + 1) % 3;
+#if !GS_MEMORY_CHECKED
+                k2 = 2;
+#endif
+                b = k2 == 0 ? n : k2 == 1 ? n + 1 : UINT_MAX;
+                if (b != a) cell += "_different";
+            }
+        }
         else if (pos == 0) { a = bad; cell += "|arg0"; }
         else { b = bad; cell += "|arg1"; }
         cell += std::string("|") + badName[badKind];
